@@ -54,6 +54,9 @@ class _Sock(object):
             x = self.script.pop(0)
             if isinstance(x, BaseException):
                 raise x
+            if n is not None and 0 < n < len(x):
+                self.script.insert(0, x[n:])       # a read takes at most what it asked for; the rest stays queued
+                x = x[:n]
             return x
         self.eof_seen = True
         if self.stop_sets_running and self.handler is not None:
@@ -126,6 +129,23 @@ def neighbour_decoder():
     return d
 
 
+class _FakeSslContext(object):
+    """stands for the SSLContext a TLS server is given; never asked to wrap anything here"""
+    verify_mode = None
+    check_hostname = None
+
+
+def _neighbour_context():
+    """what another server in the same process serves: one unit (77) with tiny tables of its own"""
+    from pymodbus.datastore import ModbusSequentialDataBlock, ModbusSlaveContext
+    blk = lambda: ModbusSequentialDataBlock(0, [0x7E] * 4)   # noqa: E731
+    return ModbusServerContext(slaves={77: ModbusSlaveContext(di=blk(), co=blk(), hr=blk(), ir=blk(), zero_mode=True)}, single=False)
+
+
+def _neighbour_flags(flags):
+    return dict((k, not v) for k, v in flags.items())
+
+
 class Server(object):
     def __init__(self, front, framing, context, broadcast_enable=False, ignore_missing_slaves=False):
         self.front, self.framing, self.context = front, framing, context
@@ -138,18 +158,25 @@ class Server(object):
         neighbour_decoder()
 
     # ------------------------------------------------------------------ sync
-    def _stub_sync(self, cls, fcls):
-        base = cls.__mro__[1]
+    def _stub_sync(self, cls, fcls, **extra):
+        import socketserver
+        base = [c for c in cls.__mro__ if c.__module__ == 'socketserver'][0]
         orig = base.__init__
         base.__init__ = lambda s, *a, **k: None
         try:
-            self.obj = cls(self.context, framer=fcls, **self.flags)
+            self.obj = cls(self.context, framer=fcls, **dict(self.flags, **extra))
+            # another server of the same class in the process, serving something else with the opposite options
+            self.neighbour_server = cls(_neighbour_context(), framer=fcls, **dict(_neighbour_flags(self.flags), **extra))
         finally:
             base.__init__ = orig
 
     def _init_sync_tcp(self, fcls):
-        from pymodbus.server.sync import ModbusTcpServer
-        self._stub_sync(ModbusTcpServer, fcls)
+        from pymodbus.server.sync import ModbusTcpServer, ModbusTlsServer
+        if self.framing == 'tls':
+            # the TLS server class (the record layer is not modelled: its context is a stand-in never asked to wrap)
+            self._stub_sync(ModbusTlsServer, fcls, sslctx=_FakeSslContext())
+        else:
+            self._stub_sync(ModbusTcpServer, fcls)
 
     def _init_sync_udp(self, fcls):
         from pymodbus.server.sync import ModbusUdpServer
@@ -163,17 +190,23 @@ class Server(object):
         S.serial.Serial = lambda **kw: self.port
         try:
             self.obj = S.ModbusSerialServer(self.context, framer=fcls, port='fake', **self.flags)
+            S.serial.Serial = lambda **kw: _Sock()
+            self.neighbour_server = S.ModbusSerialServer(_neighbour_context(), framer=fcls, port='fake2', **_neighbour_flags(self.flags))
         finally:
             S.serial.Serial = real
         self.port.handler = self.obj.handler
 
     # ---------------------------------------------------------------- asyncio
     def _init_aio_tcp(self, fcls):
-        from pymodbus.server.async_io import ModbusTcpServer
+        from pymodbus.server.async_io import ModbusTcpServer, ModbusTlsServer
         self.loop = aioloop.Loop()
+        cls, extra = (ModbusTlsServer, dict(sslctx=_FakeSslContext())) if self.framing == 'tls' else (ModbusTcpServer, {})
         with self.loop:
-            self.obj = ModbusTcpServer(self.context, framer=fcls, loop=self.loop, **self.flags)
+            self.obj = cls(self.context, framer=fcls, loop=self.loop, **dict(self.flags, **extra))
             self.obj.server_factory.close()
+            self.factory = self.loop.factories[-1] if self.loop.factories else None
+            self.neighbour_server = cls(_neighbour_context(), framer=fcls, loop=self.loop, **dict(_neighbour_flags(self.flags), **extra))
+            self.neighbour_server.server_factory.close()
 
     def _init_aio_udp(self, fcls):
         from pymodbus.server.async_io import ModbusUdpServer
@@ -181,7 +214,10 @@ class Server(object):
         with self.loop:
             self.obj = ModbusUdpServer(self.context, framer=fcls, loop=self.loop, **self.flags)
             self.obj.server_factory.close()
-            self.proto = self.obj.handler(self.obj)
+            self.factory = self.loop.factories[-1] if self.loop.factories else None
+            self.neighbour_server = ModbusUdpServer(_neighbour_context(), framer=fcls, loop=self.loop, **_neighbour_flags(self.flags))
+            self.neighbour_server.server_factory.close()
+            self.proto = self.factory() if callable(self.factory) else self.obj.handler(self.obj)
             self.tr = _AioTransport(self, ('0.0.0.0', 502))
             self.proto.connection_made(self.tr)
             self.loop.run_until_idle()
@@ -190,10 +226,12 @@ class Server(object):
     def _init_tw_tcp(self, fcls):
         from pymodbus.server.asynchronous import ModbusServerFactory
         self.obj = ModbusServerFactory(self.context, fcls, None, ignore_missing_slaves=self.flags['ignore_missing_slaves'])
+        self.neighbour_server = ModbusServerFactory(_neighbour_context(), fcls, None, ignore_missing_slaves=not self.flags['ignore_missing_slaves'])
 
     def _init_tw_udp(self, fcls):
         from pymodbus.server.asynchronous import ModbusUdpProtocol
         self.obj = ModbusUdpProtocol(self.context, fcls, None, ignore_missing_slaves=self.flags['ignore_missing_slaves'])
+        self.neighbour_server = ModbusUdpProtocol(_neighbour_context(), fcls, None, ignore_missing_slaves=not self.flags['ignore_missing_slaves'])
         self.tr = _TwDgram()
         self.obj.transport = self.tr
 
@@ -303,6 +341,13 @@ class _SyncStream(_Conn):
             self._finish()
         return self._take(self.sock.writes)
 
+    def burst(self, chunks):
+        """segments that arrived back to back before the blocking handler got to read: its next read returns all of them
+        (up to the size it asks for).  TLS records keep their boundaries: a read returns one record"""
+        if self.srv.framing == 'tls':
+            return self.run_script(list(chunks))
+        return self.run_script([b''.join(bytes(c) for c in chunks)])
+
     def run_script(self, items):
         if self.closed:
             return []
@@ -346,6 +391,10 @@ class _SyncSerial(_Conn):
         except BaseException as e:   # noqa
             self.srv.escaped.append(('sync-serial.handle', e))
         return self._take(port.writes)
+
+    def burst(self, chunks):
+        """bytes that piled up in the port's buffer before the handler's next read"""
+        return self.run_script([b''.join(bytes(c) for c in chunks)])
 
     def run_script(self, items):
         port = self.srv.port
@@ -445,7 +494,7 @@ class _AioStream(_Conn):
         self.tr = _AioTransport(srv, peer)
         srv.conns = getattr(srv, 'conns', []) + [self]
         with srv.loop:
-            self.p = srv.obj.handler(srv.obj)
+            self.p = srv.factory() if callable(getattr(srv, 'factory', None)) else srv.obj.handler(srv.obj)
             self.tr.proto = self.p
             self.p.connection_made(self.tr)
             srv.loop.run_until_idle()
